@@ -854,7 +854,7 @@ theorem delta_pm_delta (plus : Bool) (c d : ACls) (ref ref' : PosPart)
   rw [arith_spec _ _ _ h]; rfl
 
 theorem hstep_keeps (sites : List Site) (hs : ∀ s ∈ sites, s.fwd = Fwd.keep) (p : PosTag) (o : HOp) :
-    ∃ q, hstep sites branches factories p o = some q ∧ q.ell = p.ell := by
+    ∃ q, hstep sites branches factories p o = some q ∧ q.ell = tagAfter p.ell [o] := by
   cases o with
   | un o => exact ⟨_, rfl, step_keeps sites hs p o⟩
   | withDelta plus deltaLeft ref =>
@@ -866,12 +866,18 @@ theorem hstep_keeps (sites : List Site) (hs : ∀ s ∈ sites, s.fwd = Fwd.keep)
       cases c <;> rfl
     · rw [if_pos rfl, arith_spec _ _ _ (by cases c <;> rfl)]
       cases c <;> rfl
+  | retag e => exact ⟨_, rfl, rfl⟩
+  | poke => exact ⟨_, rfl, rfl⟩
 
-/-- **every history keeps the ellipsoid**: through every sequence of conversions / slices / subsets / copies *and*
-sums/differences with differences that refer to positions on arbitrary other ellipsoids, standing on either side,
-a position stays on the ellipsoid it was created with (and no step of such a history fails) -/
+theorem tagAfter_cons (e : Option Nat) (o : HOp) (os : List HOp) : tagAfter e (o :: os) = tagAfter (tagAfter e [o]) os := by
+  cases o <;> rfl
+
+/-- **every history keeps the ellipsoid**: through every sequence of conversions / slices / subsets / copies, sums and
+differences with differences that refer to positions on arbitrary other ellipsoids (standing on either side), item
+assignments and explicit re-tags `pos.ellipsoid = E'`, a position is on the ellipsoid it was created with or that was
+assigned last (and no step of such a history fails) -/
 theorem history_keeps_ellipsoid (sites : List Site) (hs : ∀ s ∈ sites, s.fwd = Fwd.keep) :
-    ∀ (ops : List HOp) (p : PosTag), ∃ q, hrun sites branches factories p ops = some q ∧ q.ell = p.ell := by
+    ∀ (ops : List HOp) (p : PosTag), ∃ q, hrun sites branches factories p ops = some q ∧ q.ell = tagAfter p.ell ops := by
   intro ops
   induction ops with
   | nil => intro p; exact ⟨p, rfl, rfl⟩
@@ -879,12 +885,45 @@ theorem history_keeps_ellipsoid (sites : List Site) (hs : ∀ s ∈ sites, s.fwd
     intro p
     obtain ⟨q, hq, he⟩ := hstep_keeps sites hs p o
     obtain ⟨q', hq', he'⟩ := ih q
-    exact ⟨q', by simp only [hrun, hq, hq'], he'.trans he⟩
+    exact ⟨q', by simp only [hrun, hq, hq'], by rw [he', he, ← tagAfter_cons]⟩
 
 /-- … for midgard as it is (tables regenerated from `_position.py`) -/
 theorem history_keeps_ellipsoid_midgard (ops : List HOp) (p : PosTag) :
-    ∃ q, hrun Midgard.Generated.EllipsoidFlow.sites branches factories p ops = some q ∧ q.ell = p.ell :=
+    ∃ q, hrun Midgard.Generated.EllipsoidFlow.sites branches factories p ops = some q ∧ q.ell = tagAfter p.ell ops :=
   history_keeps_ellipsoid _ sites_forward.1 ops p
+
+/-- `PosBase.__setattr__` / `__setitem__` drop the cached conversions on every attribute / item assignment (read off the
+source on every run) -/
+theorem assignments_clear_cache : setattrClearsCache = true ∧ setitemClearsCache = true := by decide
+
+/-- **no conversion is answered from a stale cache**: with the invalidation above, in every history every conversion is
+answered on the ellipsoid the object carries at that moment (created with, or assigned last) and from its current values —
+also for *convert, re-tag, convert again* and *convert, write into the position, convert again* -/
+theorem answers_current (sites : List Site) :
+    ∀ (ops : List HOp) (p : PosTag),
+      ∀ a ∈ hanswered sites branches factories setattrClearsCache setitemClearsCache p none ops, a.on = a.tag ∧ a.current = true := by
+  rw [assignments_clear_cache.1, assignments_clear_cache.2]
+  intro ops
+  induction ops with
+  | nil => intro p a ha; simp [hanswered] at ha
+  | cons o os ih =>
+    intro p a ha
+    unfold hanswered at ha
+    cases hst : hstep sites branches factories p o with
+    | none => simp [hst] at ha
+    | some p' =>
+      simp only [hst] at ha
+      cases o with
+      | un u =>
+        cases u <;> simp only [List.mem_cons] at ha <;>
+          first
+            | exact ih p' a ha
+            | (rcases ha with rfl | ha
+               · exact ⟨rfl, rfl⟩
+               · exact ih p' a ha)
+      | withDelta _ _ _ => exact ih p' a ha
+      | retag _ => simpa using ih p' a (by simpa using ha)
+      | poke => simpa using ih p' a (by simpa using ha)
 
 /-- the constructor calls *outside* `_position.py` (fieldtypes `_prepend_empty` / `_append_empty`, dataset, math — table
 regenerated on every run): none builds a position from a position without forwarding `ellipsoid`, and the fieldtype
@@ -1063,3 +1102,6 @@ end Midgard.Props.C05
 #print axioms Midgard.Props.C05.near_surface_accuracy_box
 #print axioms Midgard.Props.C05.far_field_accuracy
 #print axioms Midgard.Props.C05.far_field_accuracy_box
+#print axioms Midgard.Props.C05.tagAfter_cons
+#print axioms Midgard.Props.C05.assignments_clear_cache
+#print axioms Midgard.Props.C05.answers_current
